@@ -481,7 +481,9 @@ def execute(trace, mode, classify=False, keep_log=False, focus=None,
   adj = {}
   since_mut = {}      # canon(resolved query) -> answer, since last mutation
   queries_since_mut = []
-  queries_since_eff = []   # since the last mutation that changed the graph
+  windows = [[]]   # candidate "queries the live solver has seen" lists: since
+                   # the last mutation that changed the graph, and since each
+                   # later mutation that changed nothing
   stats = {"ops": 0, "mut": 0, "qry": 0, "skipped": 0, "fired": {},
            "probes": {}}
   fired = stats["fired"]
@@ -517,8 +519,13 @@ def execute(trace, mode, classify=False, keep_log=False, focus=None,
       if classify:
         snap_before = live.snapshot(effective=True)
       live.mutate(r)
-      if classify and live.snapshot(effective=True) != snap_before:
-        queries_since_eff = []
+      if classify:
+        if live.snapshot(effective=True) != snap_before:
+          windows = [[]]
+        else:
+          # a mutation that changed nothing may or may not have dropped the
+          # solver (both are legitimate); remember both possible windows
+          windows.append([])
       mlog.append(r)
       mkinds.append(k)
       mut_positions.append(idx)
@@ -635,11 +642,12 @@ def execute(trace, mode, classify=False, keep_log=False, focus=None,
     if violation:
       if classify and violation["class"] != "NONDET":
         _classify(violation, live, mlog, mkinds, mut_positions,
-                  queries_since_eff, gens_after_query, edges, r, idx,
+                  windows, gens_after_query, edges, r, idx,
                   n_q_metrics if focus == idx else None, trace, sample_gens)
       break
     queries_since_mut.append(r)
-    queries_since_eff.append(r)
+    for wq in windows:
+      wq.append(r)
 
   measure = kernel.digest(canon_seq)
   if mode == "c08":
@@ -661,11 +669,15 @@ def _classify(v, live, mlog, mkinds, mut_positions, queries_since_mut,
   # E1: fresh replica, replay only the queries issued since the last mutation
   # that changed the graph (a duplicate edge, a self edge or an empty new
   # variable legitimately leaves the solver alive).
-  rep = build_replica(mlog)
-  for q in queries_since_mut:
-    rep.query(q)
-  again = rep.query(r)
   live_ans = v.get("live", v.get("again"))
+  again = None
+  for wq in queries_since_mut:      # (parameter holds the candidate windows)
+    rep = build_replica(mlog)
+    for q in wq:
+      rep.query(q)
+    again = rep.query(r)
+    if again == live_ans:
+      break
   qnode = r[1] if r[0] in ("has",) else r[2]
   cyc = has_cycle_backward(edges, qnode)
   # was the live answer served (partly) from the solver's memo? Look at every
